@@ -10,6 +10,8 @@ from __future__ import annotations
 
 from fractions import Fraction
 
+from .core import flag
+
 # ---------------------------------------------------------------------------------------------------
 # words (values WITHOUT parity bits; parity is applied by the renderer)
 # ---------------------------------------------------------------------------------------------------
@@ -163,7 +165,7 @@ def project_doc(doc, df):
           col = _colour_name(child.get_style(StyleProperties.Color))
           it = 1 if child.get_style(StyleProperties.FontStyle) is FontStyleType.italic else 0
           td = child.get_style(StyleProperties.TextDecoration)
-          ul = 1 if td is not None and td.underline else 0
+          ul = flag(td.underline) if td is not None else 0
           for t in child:
             if isinstance(t, Text):
               for chx in t.get_text():
@@ -211,5 +213,15 @@ def run_reader(scc_text, text_align=None):
   if text_align is not None:
     cfg = SccReaderConfiguration(text_align=TextAlignment.from_value(text_align))
   from .core import AltContext, alt_for
-  with AltContext(alt_for(("scc", len(scc_text), scc_text[:60]))) as ac:
-    return to_model(scc_text, cfg, ac.progress)
+  try:
+    with AltContext(alt_for(("scc", len(scc_text), scc_text[:60]))) as ac:
+      return to_model(scc_text, cfg, ac.progress)
+  except Exception as ex:  # pylint: disable=broad-except
+    raise ReaderRaised(ex) from ex
+
+
+class ReaderRaised(Exception):
+  """to_model raised (as opposed to an error of the harness around it)."""
+  def __init__(self, ex):
+    super().__init__(f"{type(ex).__name__}: {ex}")
+    self.original = ex
